@@ -7,6 +7,7 @@ import (
 	"os"
 	"os/exec"
 	"strings"
+	"sync"
 	"time"
 
 	"golang.org/x/tools/go/packages"
@@ -138,3 +139,9 @@ func runOneShot(solver, script string, timeoutMs int) string {
 	}
 	return "unknown"
 }
+
+// builtPkg / markBuilt: packages whose Build() has returned (sync.Map: read-mostly, many workers).
+var builtPkgs sync.Map
+
+func (p *Program) builtPkg(pk *ssa.Package) bool { _, ok := builtPkgs.Load(pk); return ok }
+func (p *Program) markBuilt(pk *ssa.Package)     { builtPkgs.Store(pk, true) }
